@@ -7,6 +7,8 @@ type nat =
 | O
 | S of nat
 
+val option_map : ('a1 -> 'a2) -> 'a1 option -> 'a2 option
+
 type ('a, 'b) sum =
 | Inl of 'a
 | Inr of 'b
@@ -1002,3 +1004,54 @@ type cli_out =
 val run_cli : n -> file_in -> n list -> nat -> cli_out
 
 val check_cli : file_in -> cli_out
+
+val has_area : xcode -> bool
+
+val blk : xcode list -> xcode list -> xcode list list
+
+val blocks : xcode list -> xcode list list
+
+val block_of : xcode list -> bool -> nat -> n -> n
+
+val block_index : xcode list -> n -> n
+
+type dtree =
+| DLeaf of n
+| DNode of n * dtree * dtree
+
+val build_tree : nat -> n -> n -> dtree
+
+val dispatch_tree : n -> dtree
+
+val tree_select : dtree -> n -> n
+
+type irprog = { ir_blocks : xcode list list; ir_kind : skind;
+                ir_stacks : (n * n list list) list; ir_cur : n;
+                ir_last : n option; ir_points : (n * n) list; ir_start : 
+                n; ir_out : n list; ir_err : n list }
+
+val ser_stack : num list -> n list list
+
+val nonempty_stacks : state -> (n * num list) list
+
+val build_ir : bool -> n -> state -> xcode list -> xcode list -> irprog
+
+val compile_prog : fixes -> bool -> ucode list -> n -> irprog option
+
+val deser_stack : n list list -> num list option
+
+val deser_all : (n * n list list) list -> (n * num list) list option
+
+val run_block : xcode list -> n -> n m
+
+type irfinal =
+| IDone of state
+| IExit of n * state
+| IAbort of n * state
+| IIoErr of state
+| IFuel of state
+| IBadState
+
+val ir_loop : nat -> irprog -> state -> n -> irfinal
+
+val ir_run : nat -> irprog -> n list option list -> irfinal
